@@ -376,4 +376,104 @@ Example ex_similarity :
   prnc_sq (inject_Z 7680) (inject_Z 4608) == inject_Z 4.
 Proof. vm_compute. repeat split; try reflexivity; discriminate. Qed.
 
+(* ---------------------------------------------------------------------- *)
+(* positive definite second moments  =>  sqrt D < T                          *)
+(* ---------------------------------------------------------------------- *)
 Close Scope Q_scope.
+
+Lemma pd_contour_spec c :
+  pd_contour c = true <->
+  0 < N20 c /\ 0 < N02 c /\ N11 c * N11 c < 4 * (N20 c * N02 c).
+Proof.
+  unfold pd_contour. rewrite !andb_true_iff, !Z.ltb_lt. tauto.
+Qed.
+
+(* T^2 - D = 4 N20 N02 - N11^2 *)
+Lemma T_sq_minus_Disc c :
+  T_N c * T_N c - Disc_N c = 4 * (N20 c * N02 c) - N11 c * N11 c.
+Proof. unfold T_N, Disc_N. ring. Qed.
+
+(* the hypothesis of C18_principal_ratio_at_least_one holds for every
+   contour with positive definite second moments: any non-negative root h of
+   the discriminant is below the trace *)
+Lemma pd_root_below_trace c (h : Q) :
+  pd_contour c = true ->
+  (0 <= h)%Q -> (h * h == zq (Disc_N c))%Q -> (h < zq (T_N c))%Q.
+Proof.
+  intros Hpd Hh Hsq. apply pd_contour_spec in Hpd.
+  destruct Hpd as (H20 & H02 & Hdet).
+  assert (HT : 0 < T_N c) by (unfold T_N; lia).
+  pose proof (T_sq_minus_Disc c) as E.
+  assert (HD : Disc_N c < T_N c * T_N c) by lia.
+  destruct (Qlt_le_dec h (zq (T_N c))) as [Hlt|Hge]; [exact Hlt|exfalso].
+  assert (HTq : (0 <= zq (T_N c))%Q).
+  { unfold zq, Qle. simpl. lia. }
+  assert (Hmul : (zq (T_N c) * zq (T_N c) <= h * h)%Q).
+  { apply Qle_trans with (h * zq (T_N c))%Q.
+    - apply Qmult_le_compat_r; assumption.
+    - rewrite (Qmult_comm h (zq (T_N c))).
+      apply Qmult_le_compat_r; assumption. }
+  rewrite Hsq in Hmul. unfold zq in Hmul. rewrite <- inject_Z_mult in Hmul.
+  rewrite <- Zle_Qle in Hmul. lia.
+Qed.
+
+Lemma pd_principal_ratio_ge_1 c (h : Q) :
+  pd_contour c = true ->
+  (0 <= h)%Q -> (h * h == zq (Disc_N c))%Q ->
+  (1 <= prnc_sq (zq (T_N c)) h)%Q.
+Proof.
+  intros Hpd Hh Hsq. apply prnc_sq_ge_1; [exact Hh|].
+  apply pd_root_below_trace; assumption.
+Qed.
+
+(* A class for which positive definiteness is PROVED: every non-degenerate
+   triangle, at any position and orientation.
+   4 N20 N02 - N11^2 = 3 a00^6,  2 N20 = a00^2 * sum (xi - xj)^2 *)
+Lemma triangle_identities x1 y1 x2 y2 x3 y3 :
+  let c := [(x1, y1); (x2, y2); (x3, y3)] in
+  4 * (N20 c * N02 c) - N11 c * N11 c
+  = 3 * (a00 c * a00 c * a00 c * a00 c * a00 c * a00 c) /\
+  2 * N20 c = a00 c * a00 c * ((x1 - x2) * (x1 - x2) + (x2 - x3) * (x2 - x3)
+                               + (x3 - x1) * (x3 - x1)) /\
+  2 * N02 c = a00 c * a00 c * ((y1 - y2) * (y1 - y2) + (y2 - y3) * (y2 - y3)
+                               + (y3 - y1) * (y3 - y1)) /\
+  a00 c = x2 * y1 - x1 * y2 + (x3 * y2 - x2 * y3) + (x1 * y3 - x3 * y1).
+Proof.
+  cbv zeta.
+  unfold N20, N02, N11, a00, a10, a01, a20, a11, a02, csum, psum,
+    e00, e10, e01, e20, e11, e02, dxy. cbn [fst snd].
+  repeat split; ring.
+Qed.
+
+Lemma triangle_positive_definite x1 y1 x2 y2 x3 y3 :
+  let c := [(x1, y1); (x2, y2); (x3, y3)] in
+  a00 c <> 0 -> pd_contour c = true.
+Proof.
+  cbv zeta. intros Ha.
+  destruct (triangle_identities x1 y1 x2 y2 x3 y3) as (Hd & H20 & H02 & Ha00).
+  cbv zeta in *.
+  set (c := [(x1, y1); (x2, y2); (x3, y3)]) in *.
+  apply pd_contour_spec.
+  assert (Hsq : 0 < a00 c * a00 c) by nia.
+  assert (Hx : 0 < (x1 - x2) * (x1 - x2) + (x2 - x3) * (x2 - x3)
+                   + (x3 - x1) * (x3 - x1)).
+  { destruct (Z.eq_dec x1 x2) as [E1|E1];
+      [destruct (Z.eq_dec x2 x3) as [E2|E2]|]; [|nia|nia].
+    exfalso. apply Ha. rewrite Ha00. subst x2 x3. ring. }
+  assert (Hy : 0 < (y1 - y2) * (y1 - y2) + (y2 - y3) * (y2 - y3)
+                   + (y3 - y1) * (y3 - y1)).
+  { destruct (Z.eq_dec y1 y2) as [E1|E1];
+      [destruct (Z.eq_dec y2 y3) as [E2|E2]|]; [|nia|nia].
+    exfalso. apply Ha. rewrite Ha00. subst y2 y3. ring. }
+  assert (H6 : 0 < a00 c * a00 c * a00 c * a00 c * a00 c * a00 c).
+  { replace (a00 c * a00 c * a00 c * a00 c * a00 c * a00 c)
+      with ((a00 c * a00 c) * ((a00 c * a00 c) * (a00 c * a00 c))) by ring.
+    apply Z.mul_pos_pos; [exact Hsq|apply Z.mul_pos_pos; exact Hsq]. }
+  repeat split; nia.
+Qed.
+
+Example ex_pd :
+  pd_contour [(0, 0); (4, 0); (4, 2); (0, 2)] = true /\
+  pd_contour [(3, 1); (40, 7); (12, 30)] = true /\
+  pd_contour [(0, 0); (4, 0); (8, 0)] = false.
+Proof. vm_compute. repeat split; reflexivity. Qed.
